@@ -100,6 +100,7 @@ func makeAnnoCase(r *fw.Rng, thorough bool, format, form string, vp gen.VarProfi
 		pr.MaxQueries = nqMax
 		pr.PSub, pr.PAmbig = vp.PSub, vp.PAmbig
 		pr.PDel, pr.PIns = 0.03, 0.03
+		pr.AllowConflict = opts.SamConflicts && r.Chance(0.4)
 		ac.sf = gen.MakeSam(r, ref, pr)
 		// the SAM header's reference name must match the annotation's
 		ac.sf.Text = strings.ReplaceAll(ac.sf.Text, "SN:"+ac.sf.RefName+"\t", "SN:"+ac.an.RefName+"\t")
@@ -183,7 +184,7 @@ func runC04(c *fw.Ctx, idx int) fw.Result {
 	if r.Chance(0.25) {
 		form = "sam"
 	}
-	opts := gen.AnnoOpts{MaxFeats: 6, AllowUnnamed: true, AllowSlip: true, SplitCodons: true, Isoforms: true}
+	opts := gen.AnnoOpts{MaxFeats: 6, AllowUnnamed: true, AllowSlip: true, SplitCodons: true, Isoforms: true, Rotate: true, NoStop: true}
 	ac := makeAnnoCase(r, c.Thorough(), format, form, gen.DefaultVarProfile(), 8, opts)
 	threads := pickThreads(r)
 	outA, errA := ac.runVariants(-1, -1, false, 0, true, threads)
